@@ -121,6 +121,8 @@ type Foreach struct {
 type Case struct {
 	Exprs   []Expr
 	Default bool
+	// CaseKw: the default arm is spelled "case default" (accepted alternative)
+	CaseKw bool `json:",omitempty"`
 	Body    []Stmt
 }
 
@@ -524,7 +526,9 @@ func printStmt(b *strings.Builder, s Stmt, ind int) {
 		b.WriteString(" ) {\n")
 		for _, c := range x.Cases {
 			indent(b, ind+1)
-			if c.Default {
+			if c.Default && c.CaseKw {
+				b.WriteString("case default ")
+			} else if c.Default {
 				b.WriteString("default ")
 			} else {
 				b.WriteString("case ")
